@@ -222,7 +222,7 @@ pub fn corpus() -> Vec<Vec<String>> {
             backends: vec![B { addr: "127.0.0.1:4000".into(), id: None, x: X::new() }],
         };
         let c_tcp = || C { id: "raw".into(), tcp: true, hc_bad: false, x: X::new(), fronts: vec![F { addr: "127.0.0.1:9000".into(), cert: None, x: X::new() }], backends: vec![B { addr: "127.0.0.1:4001".into(), id: None, x: X::new() }] };
-        for v in ["unknown-protocol", "missing-protocol", "bad-address", "unknown-listener-field", "hsts-on-http-listener"] {
+        for v in ["unknown-protocol", "missing-protocol", "bad-address", "unknown-listener-field", "hsts-on-http-listener", "missing-answer-file", "missing-cluster-answer-503"] {
             out.push(emit(16393, true, false, &X::new(), &[l_http(), l_https()], &[c_http(false)], Some(v), (false, v)));
         }
         for v in ["invalid-alpn", "disable-http11-with-http11-alpn", "listener-hsts-without-enabled"] {
@@ -252,6 +252,10 @@ pub fn corpus() -> Vec<Vec<String>> {
             k.x.insert(key.into(), val.into());
             out.push(emit(16393, true, false, &X::new(), &[l_http()], &[k], None, (false, "invalid-health-check")));
         }
+        let mut la = l_http();
+        la.x.insert("a404".into(), "1".into());
+        la.x.insert("ans".into(), "404=L~the_map_wins+503=F~local.conf+502=E".into());
+        out.push(emit(16393, true, false, &X::new(), &[la], &[c_http(false)], None, (true, "custom-answers")));
         // UDP: a datagram size above buffer_size is clamped to it; a cluster with its [udp] block
         let mut u = l_udp();
         u.x.insert("maxrx".into(), "60000".into());
@@ -370,6 +374,12 @@ pub fn gen(rng: &mut Rng, _thorough: bool) -> Vec<String> {
             }
             if rng.chance(1, 6) {
                 x.insert("sticky".into(), format!("STICKY{}", rng.below(100)));
+            }
+            if rng.chance(1, 8) {
+                x.insert("a404".into(), "1".into());
+            }
+            if rng.chance(1, 6) {
+                x.insert("ans".into(), rng.pick(&["404=L~Not_found_here", "503=F~local.conf+502=E", "404=F~dominum.conf+429=L~slow_down+408=E", "301=L~moved"]).to_string());
             }
             for (k, lo, hi) in [("h2mcs", 1u64, 1000u64), ("h2rst", 1, 1000), ("h2ping", 1, 1000), ("h2hls", 1024, 65536), ("h2icw", 65535, 1 << 24)] {
                 if rng.chance(1, 8) {
